@@ -537,7 +537,8 @@ def composer_perm(kids):
 
 
 def P_roundtrip(obs1, obs2, wc):
-    """write-then-read half of C18: same instances, types, data, nets as sets of pins, top ports."""
+    """write-then-read half of C18: same instances, types, data, pin lists, nets as sets of pins, top ports,
+    port names and widths of the instantiated definitions."""
     out = []
     top = obs1["top"]
     if obs2["top"] != top:
@@ -558,10 +559,20 @@ def P_roundtrip(obs1, obs2, wc):
         if dict(map(tuple, a["attrs"])) != dict(map(tuple, b["attrs"])) or dict(map(tuple, a["params"])) != dict(map(tuple, b["params"])) \
                 or a["covers"] != b["covers"]:
             out.append(("roundtrip.instances.data", "instance %r data changed" % (a["name"],)))
+        if sorted(map(tuple, a["pins"])) != sorted(map(tuple, b["pins"])):
+            out.append(("roundtrip.instances.pins", "instance %r of %s: pins %r -> %r"
+                        % (a["name"], a["model"], sorted(map(tuple, a["pins"])), sorted(map(tuple, b["pins"])))))
     n1 = set(obs_nets(obs1, top))
     n2 = set(obs_nets(obs2, top, perm))
     if n1 != n2:
         out.append(("roundtrip.nets", "lost %r gained %r" % ([sorted(map(str, x)) for x in n1 - n2][:3], [sorted(map(str, x)) for x in n2 - n1][:3])))
+    # the definitions the children instantiate keep their port names and widths (directions of
+    # black boxes are outside C18's list)
+    for m in sorted(set(i["model"] for i in k1)):
+        w1 = sorted((p[0], p[2]) for d in obs1["defs"] if d["name"] == m for p in d["ports"])
+        w2 = sorted((p[0], p[2]) for d in obs2["defs"] if d["name"] == m for p in d["ports"])
+        if w1 != w2:
+            out.append(("roundtrip.leaf-ports", "definition %s: ports (name, width) %r -> %r" % (m, w1, w2)))
     p1 = [d for d in obs1["defs"] if d["name"] == top]
     p2 = [d for d in obs2["defs"] if d["name"] == top]
     if not p1 or not p2 or sorted(map(tuple, p1[0]["ports"])) != sorted(map(tuple, p2[0]["ports"])):
